@@ -258,7 +258,7 @@ pub fn run(ctx: &Ctx, id: &str) -> i32 {
         report.rule = "every public operation {new, configure, read_card, begin, commit, cancel} is first run fault-free to number its terminal->client packets (handshake, acks, intermediate packets, clean-up exchanges included); then re-run with one fault at every position x kind {close, garbage, NACK, foreign control field, silence, wrong serial / bare completion (system-info reply), a well-formed Abort where the reply set has none (registration reply), and each of 7 well-formed packets (abort, completion, intermediate status, status information, print line, set-time, acknowledgement) wherever it lies outside the exchange's reply set} and with refused connection attempts; all pairs of faults for the shorter operations and sampled pairs/triples otherwise; each followed by a further operation. Also: a terminal reporting the serial in the other letter case, and 1 ms..1 s delays between and inside packets (non-faults: the operation must succeed without reconnecting). Oracle: connection checker R1-R4 (DESIGN D.4) over the per-connection event log. Non-trivial = every faulty run; single faults are a duplicate-free enumeration, multi-fault runs hashed.".into();
         report.assumptions = vec!["after injecting a fault the simulated terminal is passive on that connection, so every byte recorded there afterwards was written by the client".into(), "silence during the handshake is bounded by the fix of finding D6 (otherwise those runs end at the watchdog and are attributed to C10)".into()];
     } else {
-        report.rule = "every public operation x (a) a one-shot silence at every terminal->client packet position (fault-free numbering), (b) a persistent silence at every distinct (exchange kind, packet) point incl. the handshake, (c) a connect that never resolves / always never resolves / is always refused, (d) pairs: a one-shot silence followed by a second silence / close / garbage / connect stall on the retried attempt, and silence on a slow terminal; read_card_timeout 0..255 exhaustively with a terminal that stays silent for exactly its own read-card time-out and then answers 'abort 6C' 100 ms later (must be waited for: NoCardPresented); configuration extremes (password 0/999999, amount 0/10^12-1, transactions_max_num 0/usize::MAX, terminal id empty/non-numeric/8 digits, currency 0/9999). Time is tokio's paused clock. Oracle: every call returns before one virtual day and does not panic. Duplicate-free enumeration.".into();
+        report.rule = "every public operation x (a) a one-shot silence at every terminal->client packet position (fault-free numbering), (b) a persistent silence at every distinct (exchange kind, packet) point incl. the handshake, (c) a connect that never resolves / always never resolves / is always refused, (d) pairs: a one-shot silence followed by a second silence / close / garbage / connect stall on the retried attempt, and silence on a slow terminal, (e) finite pauses of 1..61 s at every position and of 3..59 s inside the handshake of a re-connection for read_card_timeout in {0,5,15,30,56,57,58,200}; read_card_timeout 0..255 exhaustively with a terminal that stays silent for exactly its own read-card time-out and then answers 'abort 6C' 100 ms later (must be waited for: NoCardPresented); configuration extremes (password 0/999999, amount 0/10^12-1, transactions_max_num 0/usize::MAX, terminal id empty/non-numeric/8 digits, currency 0/9999). Time is tokio's paused clock. Oracle: every call returns before one virtual day and does not panic. Duplicate-free enumeration.".into();
         report.assumptions = vec!["watchdog = tokio::time::timeout of one virtual day around every public call; it can only fire when the client is parked without a timer of its own or its own timers exceed a day".into(), "only a collapsed (too short) read-card timeout is judged; the effective timeout is recorded".into()];
     }
     let base_cfg = ClientCfg { max_tx: 1, currency: 826, password: 471199, pre_amount: 3100, serial: "17fd1E3c".into(), ..ClientCfg::default() };
@@ -302,7 +302,7 @@ pub fn run(ctx: &Ctx, id: &str) -> i32 {
                     r.count("single_fault_runs", 1);
                     // second fault on the retry: every kind at a few positions of the retried attempt
                     let np = points[op].len();
-                    let second_positions: Vec<usize> = if quick { vec![*p + 1, *p + 3] } else { (*p + 1..=*p + np + 6).collect() };
+                    let second_positions: Vec<usize> = if quick { vec![*p + 1, *p + 3, *p + 5, *p + 6] } else { (*p + 1..=*p + np + 6).collect() };
                     let kinds2: Vec<FaultKind> = if quick { vec![FaultKind::Close, FaultKind::Nack, FaultKind::WrongSerial, FaultKind::Silence, FaultKind::AbortReply, FaultKind::EmptyCompletion] } else { vec![FaultKind::Close, FaultKind::Nack, FaultKind::WrongSerial, FaultKind::Silence, FaultKind::Garbage, FaultKind::Foreign, FaultKind::AbortReply, FaultKind::EmptyCompletion] };
                     for p2 in second_positions {
                         for kind2 in kinds2.clone() {
@@ -466,6 +466,39 @@ pub fn run(ctx: &Ctx, id: &str) -> i32 {
                 sc.plan.split_delay_ms = Some(700);
                 sc.plan.faults.push(FaultSpec { call: idx, at: At::Tx(*p), kind: FaultKind::Silence });
                 run_and_judge(r, id, &sc, idx, &schema, &format!("{op:?}: slow terminal + silence at packet {p}"), true);
+            }
+            // (e) finite pauses (not faults): the terminal is silent for a while and then carries on — alone at every
+            //     position, and inside the handshake of a re-connection after the link was lost, for several
+            //     read-card time-outs (the per-packet timeout of read_card is the caller's, the handshake's is not)
+            for (j, (op, p)) in jobs.iter().enumerate() {
+                if j % threads != shard {
+                    continue;
+                }
+                for secs in [1u32, 16, 30, 59, 61] {
+                    let (mut sc, idx) = skeleton(*op, &base_cfg);
+                    sc.plan.faults.push(FaultSpec { call: idx, at: At::Tx(*p), kind: FaultKind::Pause(secs) });
+                    run_and_judge(r, id, &sc, idx, &schema, &format!("{op:?}: terminal pauses {secs} s before packet {p}, then carries on"), true);
+                    r.count("pause_runs", 1);
+                }
+            }
+            for (k, op) in OPS.iter().enumerate() {
+                if k % threads != shard % threads {
+                    continue;
+                }
+                for rc in [0u8, 5, 15, 30, 56, 57, 58, 200] {
+                    for secs in [3u32, 8, 18, 33, 45, 59] {
+                        for point in [(Cmd::Registration, 0usize), (Cmd::Registration, 1), (Cmd::SystemInfo, 0), (Cmd::SystemInfo, 1)] {
+                            let cfg = ClientCfg { read_card_timeout: rc, ..base_cfg.clone() };
+                            let (mut sc, idx) = skeleton(*op, &cfg);
+                            if *op != Op::New {
+                                sc.plan.faults.push(FaultSpec { call: idx, at: At::Tx(0), kind: FaultKind::Close });
+                            }
+                            sc.plan.faults.push(FaultSpec { call: idx, at: At::PointOnce(point.0, point.1), kind: FaultKind::Pause(secs) });
+                            run_and_judge(r, id, &sc, idx, &schema, &format!("{op:?} (read_card_timeout {rc}): link lost, then the terminal pauses {secs} s at {:?} packet {} of the new handshake", point.0, point.1), true);
+                            r.count("pause_in_rehandshake_runs", 1);
+                        }
+                    }
+                }
             }
             // configuration extremes
             if shard == 1 % threads {
